@@ -31,7 +31,7 @@ def instantiate(gen_q):
 
 # model-tie modules whose correspondence is part of this property's check (parts of the model its theorems rest on)
 TIES = ['ASM']
-RULE = ("generated programs (all statement kinds, nested blocks/scopes/macros/loops/conditionals, *= and @= moves, "
+RULE = ("generated programs (instructions, data, .ascii, labels, symbols, .incbin, .include; nested blocks/scopes/macros/loops/conditionals, *= and @= moves, "
         "LoROM/HiROM/low2) + width-inference stress programs (constant shadowed by a later label of the same name, "
         "forward/backward symbol operands at every width boundary) + bank-crossing layouts; the per-node addresses of "
         "the label pass and of emission are recorded by wrapping pc_after/emit; non-trivial: assembles and emits bytes")
@@ -55,6 +55,7 @@ MANIFEST = {
 }
 
 WIDTH_EDGE = [0xFF, 0x100, 0xFFFF, 0x10000]
+progen_features_with_files = {"blocks", "scopes", "macros", "if", "for", "reloc", "data", "ascii", "symbols", "files"}
 
 
 def cases(ctx):
@@ -62,7 +63,8 @@ def cases(ctx):
     out = []
     n = 250 if tier == "quick" else 4000
     for _ in range(n):
-        c, _tree = core.prog_case(rng, "generated", spec={"t": "trace"}, trace=True)
+        c, _tree = core.prog_case(rng, "generated", spec={"t": "trace"}, trace=True,
+                                    features=progen_features_with_files)
         out.append(c)
     # width-inference stress: the shadowing pattern (must fail, never shift), and boundary operands
     for rom, org in (("low", 0x008000), ("high", 0x400000)):
